@@ -185,13 +185,14 @@ v("C11", "b6-latch-removed", "break", "binder/cookie.go", "\t\tif err != nil {\n
 v("C11", "n1-switch-order", "benign", "bind.go", "\tcase MIMEApplicationJSON:\n\t\treturn b.JSON(out)\n\tcase MIMETextXML, MIMEApplicationXML:\n\t\treturn b.XML(out)\n", "\tcase MIMETextXML, MIMEApplicationXML:\n\t\treturn b.XML(out)\n\tcase MIMEApplicationJSON:\n\t\treturn b.JSON(out)\n", why="case order")
 
 # ---------------------------------------------------------------- C12
-v("C12", "b1-no-clearcookie", "break", "redirect.go", "\t// the messages are consumed, expire the cookie on the client\n\tr.c.ClearCookie(FlashCookieName)\n", "", "expires-cookie", "reverts F7c")
+v("C12", "b1-no-expiry", "break", "redirect.go", "\tr.c.Cookie(&Cookie{\n\t\tName:    FlashCookieName,\n\t\tPath:    \"/\",\n\t\tExpires: fasthttp.CookieExpireDelete,\n\t})\n}", "\t_ = fasthttp.CookieExpireDelete\n}", "expires-cookie", "reverts F7c: the cookie is never expired")
+v("C12", "b9-expiry-without-path", "break", "redirect.go", "\tr.c.Cookie(&Cookie{\n\t\tName:    FlashCookieName,\n\t\tPath:    \"/\",\n\t\tExpires: fasthttp.CookieExpireDelete,\n\t})\n}", "\t_ = fasthttp.CookieExpireDelete\n\tr.c.ClearCookie(FlashCookieName)\n}", "expires-cookie", "reverts F26: expiry without the Path the cookie was issued for")
 v("C12", "b2-partial-on-error", "break", "redirect.go", "\t\tif rest, err = msg.UnmarshalMsg(rest); err != nil {\n\t\t\tr.c.flashMessages = r.c.flashMessages[:0]\n\t\t\treturn\n\t\t}", "\t\tif rest, err = msg.UnmarshalMsg(rest); err != nil {\n\t\t\treturn\n\t\t}", "error⇒empty", "partial result kept")
 v("C12", "b3-unbounded", "break", "redirect.go", "\tif err != nil || int64(size) > int64(len(rest)) {\n\t\treturn\n\t}\n\n\tfor i := uint32(0); i < size; i++ {", "\tif err != nil {\n\t\treturn\n\t}\n\tr.c.flashMessages = make(redirectionMsgs, 0, size)\n\n\tfor i := uint32(0); i < size; i++ {", "parseAndClearFlashMessages", "unbounded allocation")
 v("C12", "b4-generated-slice-decoder", "break", "redirect.go", "\tfor i := uint32(0); i < size; i++ {", "\tif size > 1 {\n\t\t_, _ = r.c.flashMessages.UnmarshalMsg(cookieValue)\n\t}\n\tfor i := uint32(0); i < size; i++ {", "stale-elements", "generated decoder on the reused slice again")
 v("C12", "b5-prefilter-dropped", "break", "router.go", "\trawHeaders := ctx.Request().Header.RawHeaders()\n\tif len(rawHeaders) > 0 && bytes.Contains(rawHeaders, []byte(FlashCookieName)) {\n\t\tctx.Redirect().parseAndClearFlashMessages()\n\t}\n\n\t// Attempt to match a route and execute the chain\n\t_, err := app.next(ctx)", "\tctx.Redirect().parseAndClearFlashMessages()\n\n\t// Attempt to match a route and execute the chain\n\t_, err := app.next(ctx)", "flash-prefilter", "every request decodes")
 v("C12", "b6-release-keeps-messages", "break", "ctx.go", "\tc.flashMessages = c.flashMessages[:0]\n\tc.viewBindMap", "\tc.viewBindMap", "release:empties-flashMessages", "messages survive release")
-v("C12", "n1-clearcookie-first", "benign", "redirect.go", "\t// the messages are consumed, expire the cookie on the client\n\tr.c.ClearCookie(FlashCookieName)\n}", "\tr.c.ClearCookie(FlashCookieName) // the messages are consumed, expire the cookie on the client\n}", why="comment moved")
+v("C12", "n1-expiry-maxage-form", "benign", "redirect.go", "\t\tName:    FlashCookieName,\n\t\tPath:    \"/\",\n\t\tExpires: fasthttp.CookieExpireDelete,\n\t})\n}", "\t\tName:    FlashCookieName,\n\t\tPath:    \"/\",\n\t\tMaxAge:  -1,\n\t\tExpires: fasthttp.CookieExpireDelete,\n\t})\n}", why="expiry also states a negative Max-Age")
 
 # ---------------------------------------------------------------- C13
 v("C13", "b1-get-before-lock", "break", "middleware/limiter/limiter_fixed.go", "\t\t// Lock entry\n\t\tmux.Lock()\n\n\t\t// Get entry from pool and release when finished\n\t\te := manager.get(key)\n", "\t\t// Get entry from pool and release when finished\n\t\te := manager.get(key)\n\n\t\t// Lock entry\n\t\tmux.Lock()\n", "FixedWindow:", "lost update")
@@ -254,7 +255,7 @@ v("C19", "b3-no-vary-on-simple", "break", "middleware/cors/cors.go", "\t\t\tif !
 v("C19", "b4-preflight-falls-through", "break", "middleware/cors/cors.go", "\t\t// Send 204 No Content\n\t\treturn c.SendStatus(fiber.StatusNoContent)", "\t\t// Send 204 No Content\n\t\tif allowOrigin == \"\" {\n\t\t\treturn c.Next()\n\t\t}\n\t\treturn c.SendStatus(fiber.StatusNoContent)", "preflight", "preflight reaches the handler")
 v("C19", "b5-construction-allows-combo", "break", "middleware/cors/cors.go", "\tif cfg.AllowCredentials && allowAllOrigins {\n\t\tpanic(", "\tif cfg.AllowCredentials && allowAllOrigins && cfg.MaxAge < 0 {\n\t\tpanic(", "refuses-credentials-with-all-origins", "credentials with all origins accepted")
 v("C19", "n1-loop-to-slices-contains", "benign", "middleware/cors/cors.go", "\t\t\tfor _, origin := range allowOrigins {\n\t\t\t\tif origin == originHeader {\n\t\t\t\t\tallowOrigin = originHeader\n\t\t\t\t\tbreak\n\t\t\t\t}\n\t\t\t}", "\t\t\tfor idx := range allowOrigins {\n\t\t\t\tif allowOrigins[idx] == originHeader {\n\t\t\t\t\tallowOrigin = originHeader\n\t\t\t\t\tbreak\n\t\t\t\t}\n\t\t\t}", why="index loop")
-v("C19", "b6-suffix-drops-dot", "break", "middleware/cors/cors.go", "origin[:i+3]+origin[i+4:]", "origin[:i+3]+origin[i+5:]", "wildcard-split-offsets", "the stored suffix loses its leading dot: evilexample.com matches *.example.com")
+v("C19", "b6-suffix-drops-dot", "break", "middleware/cors/cors.go", "origin[:i+3] + origin[i+4:]", "origin[:i+3] + origin[i+5:]", "wildcard-split-offsets", "the stored suffix loses its leading dot: evilexample.com matches *.example.com")
 v("C19", "b7-suffix-offset-on-normalised", "break", "middleware/cors/cors.go", "suffix: normalizedOrigin[i+3:]}", "suffix: normalizedOrigin[i+4:]}", "wildcard-split-offsets", "suffix starts after the dot")
 v("C19", "b8-match-contains", "break", "middleware/cors/utils.go", "strings.HasSuffix(o, s.suffix)", "strings.Contains(o, s.suffix)", "match:requires-HasSuffix", "x.example.com.evil.net matches")
 v("C19", "n4-match-no-length-guard", "benign", "middleware/cors/utils.go", "len(o) >= len(s.prefix)+len(s.suffix) && ", "", why="a prefix ending in :// and a suffix starting with . cannot overlap: the length test is implied")
